@@ -3,7 +3,7 @@ import pipeline
 
 LEAN_MODULES = ['PomerolModel.Properties.C03']
 GENERATED = ['coreflags']
-THEOREMS = ["Pomerol.Properties.C03." + t for t in ['assembled_unitary', 'assembled_diagonalises', 'eigenvectors', 'orthonormal', 'spectrum_with_multiplicities', 'fock_spectrum', 'one_by_one_block', 'no_interblock_iff_block_diagonal']]
+THEOREMS = ["Pomerol.Properties.C03." + t for t in ['assembled_unitary', 'assembled_diagonalises', 'eigenvectors', 'orthonormal', 'spectrum_with_multiplicities', 'fock_spectrum', 'one_by_one_block', 'no_interblock_iff_block_diagonal', 'ground_energy_is_minimum_over_blocks', 'eigenvalues_are_union_of_blocks', 'eigenvalue_lookup_by_state', 'eigenvalue_lookup_by_address']]
 RULE = 'a case = random model under default/ignored/custom symmetries; every block matrix is compared exactly with the model, the reported (E,U) of all blocks are assembled and certified against the full Jordan-Wigner Hamiltonian (residual, orthonormality, ascending order), ground energy, concatenation and per-state lookups checked; non-trivial = distinct case with at least two blocks or a block of dimension > 1'
 TRUSTED = ["harness/pipe.cpp drives the real classes along the documented workflow; case-file protocol with hex doubles",
            "numeric oracle (lean/Driver/Numeric*.lean): IEEE double arithmetic of compiled Lean, full-Fock-space sums",
